@@ -367,6 +367,36 @@ def apiSpec : ApiCase → ApiOut
   | .callTwoStatements => .text "G/fundefined,g7"   -- not ONE expression: general path = (eval source).call(undefined, 7)
   | .callTwoStatementsThis => .text "G/fundefined,g7"
   | .callExprStatement => .text "G/g7"
+  | .runThrowToStringHostThrows => .errPlain
+  | .setZeroObject => .text "undefined"       -- an Object value that holds no object: like a nil *Object
+  | .setPtrZeroObject => .text "undefined"
+  | .exportStringObject => .text "O(,30,s:61,31,s:62)"   -- as documented at Export (wrapper objects are not JSON-like data)
+  | .exportNumberObject => .text "O()"
+  | .exportFunction => .text "O()"
+  | .exportDate => .text "O()"
+
+/-! ### (f) arithmetic on Go values: §11.5, §11.6 on the Number counterparts (IEEE 754 operation on the
+    ToNumber values); the result read back is that double (−0 keeps its sign), as a float64 -/
+def numberOfGo (E : Env) (g : GoVal) : Res FV :=
+  match target g with
+  | .nil => .ok .nan
+  | .sc _ (.str _) => .err                     -- string operands (concatenation, ToNumber of strings) are C05/C09's
+  | .sc _ s => .ok (scNumber E s)
+  | _ => .err
+
+def arith (E : Env) (op : OttoVerif.C05.BinOp) (g1 g2 : GoVal) : Res Val :=
+  (numberOfGo E g1).bind fun a => (numberOfGo E g2).bind fun b =>
+    match op with
+    | .add => .ok (.f64 (add a b))
+    | .sub => .ok (.f64 (sub a b))
+    | .mul => .ok (.f64 (mul a b))
+    | .div => .ok (.f64 (div a b))
+    | .rem => .ok (.f64 (fmod a b))
+    | _ => .err
+
+/-- (g) FunctionCall.Otto is the runtime the host function runs on -/
+def hostOttoOnCopy : Reentry → Runtime
+  | _ => .copy
 
 /-! ### Deviation regions (decidable predicates over the request; witnesses in Theorems.lean) -/
 namespace Dev
@@ -470,6 +500,13 @@ def nodeHole : HNode → Bool
   | .arr es => es.any fun e => match e with | none => true | some v => hvalHole v
   | .obj ps => ps.any fun p => hvalHole p.2
 def heapHole (H : Heap) (v : HVal) : Bool := hvalHole v || H.any nodeHole
+
+/-- region of an API edge case -/
+def apiRegion : ApiCase → Option String
+  | .runThrowToStringHostThrows => some "run_thrown_value_tostring_host_go_panic"
+  | .setZeroObject => some "zero_object_value_go_panic"
+  | .setPtrZeroObject => some "zero_object_value_go_panic"
+  | _ => none
 
 end Dev
 
